@@ -28,7 +28,7 @@ ASSUMPTIONS = [
     'properties read: H S C Cn V rho mu kappa sigma epsilon Hvap Cp alpha nu Pr MW F_vol h; history-building reads are H, h, V, Hvap, sigma (one per memo '
     'name class: flow / per-mole, phase-keyed / phase-free) plus a probe that reads all 18 in a fixed order',
     'the quantifier\'s "length up to ~40" is covered to the stated depth only; the reduced-alphabet system goes deeper',
-    'proxy() of a MultiStream that was constructed directly raises AttributeError (no `equations` attribute) - not a property read, recorded as rejected',
+    'on trees where proxy() of a directly constructed MultiStream raises AttributeError (no `equations` attribute) the call is recorded as rejected',
     'the (private) package reset is not applied while a proxy of the stream exists, and no proxy is created after a package reset (a proxy keeps its own package reference)',
     'which containers linking shares is not judged here (C13); the fresh twin is built from what the object itself reports',
 ]
@@ -138,7 +138,7 @@ class C14(System):
 
     def configs(self, tier, seed):
         cfgs = [(k, e, w) for k in self.kinds for e in self.extras for w in self.warms
-                if not (e == 'view' and k in ('l', 'g')) and not (e == 'proxy' and k == 'm')]
+                if not (e == 'view' and k in ('l', 'g'))]
         if self.only is not None: cfgs = [c for c in cfgs if c in self.only]
         n = seed % len(cfgs)
         return cfgs[n:] + cfgs[:n]
@@ -172,7 +172,9 @@ class C14(System):
         if warm:
             # the memo is populated before the satellites are created (shortens the histories that expose a stale memo)
             s.sigma; s.H          # the phase-keyed read comes last, so that 'H' stays memoised
-        if extra == 'proxy': st.p = s.proxy()
+        if extra == 'proxy':
+            try: st.p = s.proxy()
+            except AttributeError: st.p = None       # trees in which a directly constructed MultiStream cannot be proxied
         elif extra == 'link':
             st.k = self._new_k(st)
             st.k.link_with(s)
@@ -229,7 +231,7 @@ class C14(System):
         if not multi: acts.append(('phase', 'g' if s.phase != 'g' else 'l'))
         else: acts.append(('shift', 0.5))        # move half of the liquid water to the gas phase: only the phase split changes
         if deep:
-            if st.p is None and not (multi and st.cfg[0] == 'm'): acts.append(('mkproxy',))
+            if st.p is None: acts.append(('mkproxy',))
             if st.p is not None: acts += [('T', 'p', TA), ('T', 'p', TB)]
             if st.k is not None: acts += [('T', 'k', TA), ('T', 'k', TB)]
             if st.v is not None: acts += [('flow', 'v', 1.0), ('flow', 'v', 3.0)]
@@ -403,12 +405,12 @@ class C14(System):
 
 
 _CORE = (('l', 'none', False), ('g', 'none', False), ('m', 'none', False), ('mc', 'none', False),
-         ('l', 'proxy', True), ('mc', 'proxy', True), ('l', 'link', True), ('mc', 'link', True), ('m', 'view', True))
+         ('l', 'proxy', True), ('m', 'proxy', True), ('l', 'link', True), ('mc', 'link', True), ('m', 'view', True))
 SYSTEMS = [
     # every mutator x every read (x every satellite) from all 26 cold and warm starts
     C14('c14.wide', 'full', 2, 3, ('l', 'g', 'm', 'mc'), ('none', 'proxy', 'link', 'view'), tcap_t=900),
     # the same alphabet, one level deeper, from the 9 core starts (satellites can also be created by actions)
     C14('c14.full', 'full', 3, 4, ('l', 'g', 'm', 'mc'), ('none', 'proxy', 'link', 'view'), only=_CORE, tcap_q=150, tcap_t=900),
     # reduced alphabet (restoring mutations, reads through every object), deep histories
-    C14('c14.deep', 'deep', 5, 7, ('l', 'mc'), ('none', 'proxy', 'link', 'view'), warm=(False,), tcap_q=120, tcap_t=600),
+    C14('c14.deep', 'deep', 5, 7, ('l', 'm'), ('none', 'proxy', 'link', 'view'), warm=(False,), tcap_q=120, tcap_t=600),
 ]
